@@ -133,15 +133,23 @@ def cte_alias_shapes(draw):
     body = f'SELECT y.a AS a, y.{ca} AS v FROM {a[0]}.{a[1]} AS y'
     if draw(st.integers(0, 3)) == 0:
         body += f' WHERE (y.a {draw(st.sampled_from([">", "<=", "!="]))} {draw(st.integers(0, 2))})'
-    x = name if kind == 'no-alias' else 'x1'
-    ref = name if kind == 'no-alias' else f'{name} AS x1'
+    defname = refname = name
+    if draw(st.integers(0, 2)) == 0:
+        # the name is spelled in another letter case where it is declared / where it is used
+        if draw(st.integers(0, 2)) > 0:
+            defname = draw(st.sampled_from([name.upper(), name.capitalize()]))
+        else:
+            refname = name.upper()
+        tags.add('cte:case-differs')
+    x = refname if kind == 'no-alias' else 'x1'
+    ref = refname if kind == 'no-alias' else f'{refname} AS x1'
     # the join key is compared with the column that only one side has where that is possible (v / <cb>), so the case
     # does not depend on how a bare column name would be resolved
     if kind == 'alias-right':
         frm = f'{b[0]}.{b[1]} AS z {jk} {ref} ON ({x}.v = z.{cb})'
         tcols = [f'{x}.v AS c0', f'z.{cb} AS c1', f'{x}.a AS c2']
     elif kind == 'self':
-        frm = f'{ref} {jk} {name} AS x2 ON ({x}.a = x2.v) {draw(st.sampled_from(["JOIN", "LEFT JOIN"]))} {b[0]}.{b[1]} AS z ON (x2.a = z.a)'
+        frm = f'{ref} {jk} {refname} AS x2 ON ({x}.a = x2.v) {draw(st.sampled_from(["JOIN", "LEFT JOIN"]))} {b[0]}.{b[1]} AS z ON (x2.a = z.a)'
         tcols = [f'{x}.v AS c0', 'x2.a AS c1', f'z.{cb} AS c2']
     else:
         on = draw(st.sampled_from([f'({x}.a = z.a)', f'({x}.v = z.{cb})']))
@@ -151,7 +159,7 @@ def cte_alias_shapes(draw):
     if draw(st.integers(0, 2)) == 0:
         where = f' WHERE ({x}.v {draw(st.sampled_from([">", "<=", "!="]))} {draw(st.integers(0, 2))})'
         tags.add('where')
-    sql = f'WITH {name} AS ({body}) SELECT {", ".join(tcols)} FROM {frm}{where}'
+    sql = f'WITH {defname} AS ({body}) SELECT {", ".join(tcols)} FROM {frm}{where}'
     meta = {'order_cols': [], 'total_order': False, 'limit': False, 'tags': sorted(tags), 'places': ['int1', 'int2'],
             'tables': sorted({f'{a[0]}.{a[1]}', f'{b[0]}.{b[1]}'}), 'types': ['int'] * len(tcols)}
     return {'sql': sql, 'meta': meta}
